@@ -856,3 +856,71 @@ def replay_h_t1(detail):
 
 
 KINDS['h_t1'] = replay_h_t1
+
+
+def replay_h_ed_rel(detail):
+    repo.load()
+    from py_stringmatching import QgramTokenizer
+    from py_stringmatching.similarity_measure.levenshtein import Levenshtein
+    cs = detail['scenario']
+    law = detail['law']
+    ssj = repo.mod('')
+    tok = QgramTokenizer(qval=cs['q'], padding=cs['padding'], return_set=False)
+    L, R = scenario.real_frames(cs)
+    tau = cs['threshold']
+
+    def join(a, b, t, op):
+        out = ssj.edit_distance_join(a, b, 'id', 'id', 'attr', 'attr', t, op, False, None, None, 'l_', 'r_', True, 1, False, tok)
+        return dict(((int(x), int(y)), s) for x, y, s in zip(out.iloc[:, 1], out.iloc[:, 2], out['_sim_score']))
+    lval = dict((r[0], r[1]) for r in cs['L']['rows'])
+    rval = dict((r[0], r[1]) for r in cs['R']['rows'])
+
+    def shares(a, b):
+        tb = tok.tokenize(b)
+        return any(x in tb for x in tok.tokenize(a))
+    lines = ['law %s tau=%r q=%d padding=%r\nleft:\n%s\nright:\n%s' % (law, tau, cs['q'], cs['padding'], L.to_string(), R.to_string())]
+    bad = False
+    try:
+        A = join(L, R, tau, '<=')
+        lines.append('join: %r' % A)
+        if law == 'transpose':
+            B = join(R, L, tau, '<=')
+            Bt = dict(((y, x), v) for (x, y), v in B.items())
+            lines.append('join(B,A) transposed: %r' % Bt)
+            bad = A != Bt
+        elif law == 'refine':
+            t2 = detail['tau2']
+            B = join(L, R, t2, '<=')
+            lines.append('join at %r: %r' % (t2, B))
+            for pk in set(A) | set(B):
+                want = pk in A and A[pk] <= t2
+                if (pk in B) != want and shares(lval[pk[0]], rval[pk[1]]):
+                    bad = True
+                if pk in A and pk in B and A[pk] != B[pk]:
+                    bad = True
+        elif law == 'partition':
+            LT, EQ = join(L, R, tau, '<'), join(L, R, tau, '=')
+            lines.append("'<': %r  '=': %r" % (LT, EQ))
+            for pk in set(A) | set(LT) | set(EQ):
+                if (pk in A) != ((pk in LT) or (pk in EQ)) or (pk in LT and pk in EQ):
+                    bad = True
+        else:
+            f = ssj.PrefixFilter(tok, 'EDIT_DISTANCE', tau)
+            cand = f.filter_tables(L, R, 'id', 'id', 'attr', 'attr', show_progress=False)
+            M = ssj.apply_matcher(cand, 'l_id', 'r_id', L, R, 'id', 'id', 'attr', 'attr', None,
+                                  Levenshtein().get_raw_score, tau, '<=', show_progress=False)
+            P = dict(((int(x), int(y)), s) for x, y, s in zip(M['l_id'], M['r_id'], M['_sim_score']))
+            lines.append('pipeline: %r' % P)
+            for pk in A:
+                if pk not in P or P[pk] != A[pk]:
+                    bad = True
+            for pk in P:
+                if pk not in A and shares(lval[pk[0]], rval[pk[1]]):
+                    bad = True
+    except Exception as e:
+        lines.append('raised %s: %s' % (type(e).__name__, e))
+        bad = True
+    return bool(bad), '\n'.join(lines)
+
+
+KINDS['h_ed_rel'] = replay_h_ed_rel
